@@ -258,6 +258,12 @@ class Client(BaseComponent):
 
             if data:
                 self.fire(read(data)).notify = True
+                # (the rest of a TLS record that did not fit into this read:
+                # the poller does not see what waits inside the SSL object)
+                while data and self.secure and self._ssock and self._ssock.pending():
+                    data = self._ssock.read(self._bufsize)
+                    if data:
+                        self.fire(read(data)).notify = True
             else:
                 self.close()
         except OSError as e:
@@ -629,6 +635,13 @@ class Server(BaseComponent):
             data = sock.recv(self._bufsize)
             if data:
                 self.fire(read(sock, data)).notify = True
+                # A TLS record is decrypted as a whole: what did not fit
+                # into this read waits inside the SSL object, where the
+                # poller does not see it.
+                while data and getattr(sock, 'pending', None) is not None and sock.pending():
+                    data = sock.recv(self._bufsize)
+                    if data:
+                        self.fire(read(sock, data)).notify = True
             else:
                 self.close(sock)
         except OSError as e:
